@@ -90,3 +90,48 @@ func verifH_C19_pollq_stale() {
 	}
 	verifReach("end")
 }
+
+// C19_pollq_two: TWO poll requests are pending on the same queue (a client may have a second GET in flight) while
+// packets are added one after the other, under all interleavings at synchronisation points. At quiescence no poll is
+// left waiting while a packet is queued; a poll that returned is not empty; every packet was returned exactly once or is
+// still queued with nobody waiting.
+//
+//verif:unwind 8
+//verif:preempt 2
+func verifH_C19_pollq_two() {
+	pq := newPollQueue()
+	a := &parser.Packet{Type: parser.PacketTypeMessage, Data: []byte{'a'}}
+	b := &parser.Packet{Type: parser.PacketTypeMessage, Data: []byte{'b'}}
+	var got1, got2 []*parser.Packet
+	ret1, ret2 := false, false
+	oneProducer := verifAnyBool()
+	verifThreads(true)
+	verifGo(func() {
+		got1 = pq.poll(time.Hour)
+		ret1 = true
+	})
+	verifGo(func() {
+		got2 = pq.poll(time.Hour)
+		ret2 = true
+	})
+	if oneProducer {
+		verifGo(func() {
+			pq.add(a)
+			pq.add(b)
+		})
+	} else {
+		verifGo(func() { pq.add(a) })
+		verifGo(func() { pq.add(b) })
+	}
+	verifWaitQuiescent()
+	queued := pq.len()
+	verifAssert(!(verifBlocked() > 0 && queued > 0), "no lost wake-up: no poll is left waiting while packets are queued and all producers are done")
+	if ret1 {
+		verifAssert(len(got1) > 0, "a poll does not answer empty")
+	}
+	if ret2 {
+		verifAssert(len(got2) > 0, "a poll does not answer empty")
+	}
+	verifAssert(len(got1)+len(got2)+queued == 2, "every packet is returned by exactly one poll or still queued")
+	verifReach("end")
+}
